@@ -31,7 +31,7 @@ ASSUMPTIONS = ["simulated schedulers; scancel exits 0 even on failure and report
 SITUATIONS = ["never", "pending", "running", "finished_ok", "finished_bad", "cancelled"]
 
 
-QUICK_BUDGET = {"cases": 400, "deadline_s": 170, "case_timeout_s": 120, "floors": {"cancel_runs": 140, "cancel_cmds_checked": 296, "faults_injected": 32, "followup_runs": 121, "pool_cancels": 4}}
+QUICK_BUDGET = {"cases": 400, "deadline_s": 170, "case_timeout_s": 120, "floors": {"cancel_runs": 140, "cancel_cmds_checked": 296, "faults_injected": 32, "followup_runs": 121, "pool_cancels": 4, "resubmitted_before_cancel": 40, "slurm_lagging_accounting_cases": 50}}
 THOROUGH_FACTOR = 18  # thorough = the same workload with 18x the cases (floors scale along)
 
 
@@ -71,6 +71,9 @@ def gen_case(rng, idx, tier):
 def run_case(case):
     if case["lane"] == "pool":
         return run_pool(case)
+    import copy
+
+    case = copy.deepcopy(case)  # the resubmission history below rewrites the situations
     res = Result()
     sched = case["sched"]
     with gen.Project() as proj:
@@ -89,7 +92,12 @@ def run_case(case):
         names = [t["name"] for t in ts]
         # SGE: a running job that is deleted may stay listed as "dr" (deletion registered) for a while
         lingers = sched == "sge" and case["first_id"] != 40
-        sim = SimCluster(proj.simdir, sched, first_id=case["first_id"], config={"qdel_lingers": True} if lingers else None)
+        simcfg = {"qdel_lingers": True} if lingers else None
+        if sched == "slurm" and case["first_id"] != 40:
+            # Slurm: a cancelled job stays in the queue listing as CA while the accounting database lags behind
+            simcfg = {"scancel_lingers": True, "acct_lag": True}
+            res.mon("slurm_lagging_accounting_cases")
+        sim = SimCluster(proj.simdir, sched, first_id=case["first_id"], config=simcfg)
         if lingers:
             res.mon("sge_lingering_cases")
         tracked = {}
@@ -106,6 +114,18 @@ def run_case(case):
         if tracked:
             proj.write_state(scenario.tracked_file(sched), tracked)
         env = cli.env_for(proj.simdir, (sched,))
+        if (len(names) + len(case["patterns"]) + len(case["answer"])) % 3 == 0:
+            # an earlier `gwf run` has re-submitted whatever had failed, was cancelled or was stale: "the most recent
+            # job" of those targets is the one accepted then (the scheduler's own table is the truth)
+            r0 = cli.gwf(proj.root, ["run"], env)
+            if r0.rc != 0:
+                res.violation("crash", "gwf run (history before the cancel) failed", **cli.crash_witness(r0))
+                return res
+            for n, jid in scenario.latest_jobs(sim, sched, set(names)).items():
+                if tracked.get(n) != jid:
+                    tracked[n] = jid
+                    case["sit"][n] = "pending"
+            res.mon("resubmitted_before_cancel")
         sel = scenario.select(set(names), case["patterns"])
         selected = set(names) if sel is None else set(sel)
         prompt = not case["patterns"] and not case["force"]
